@@ -228,7 +228,7 @@ class HwCheck:
         cands = dict(self.hints); dropped = []
         t0 = time.time()
         # initiation: one combined query, eliminate by model
-        initc = self.init_eqs() + self.ts.comb_constraints()
+        initc = self.init_eqs() + self.base()       # assumptions (environment of cycle 0, rigid constants) hold in the initial cycle too
         while cands:
             st, m, _, _ = self._solve(initc + [z3.Not(z3.And(*cands.values()))], order=("api",))
             if st == "unsat": break
@@ -464,7 +464,7 @@ class HwCheck:
             out.append(res("cosim", "extraction", FAULT, time.time() - t0, "litex.gen.sim", info=f"{type(e).__name__}: {e}"))
         st, _, be, t = self._solve(self.base() + self.inv)
         out.append(res("sat(assume∧inv)", "vacuity", OK if st == "sat" else (VACUOUS if st == "unsat" else UNKNOWN), t, be))
-        st, _, be, t = self._solve(self.init_eqs() + self.ts.comb_constraints() + [z3.Not(z3.And(*self.inv))]) if self.inv else ("unsat", None, "trivial", 0.0)
+        st, _, be, t = self._solve(self.init_eqs() + self.base() + [z3.Not(z3.And(*self.inv))]) if self.inv else ("unsat", None, "trivial", 0.0)
         out.append(res("init", "initiation", PROVED if st == "unsat" else (UNKNOWN if st == "unknown" else NOINPUT), t, be, hints_kept=len(self.kept), hints_total=len(self.hints)))
         # consecution is what Houdini established; re-check once as a named obligation
         if self.inv:
